@@ -40,10 +40,12 @@ extern uint8_t w_byte;
 #define ADLER_FA(j) (65535ULL + (((j) << 8) - (j)))           /* 65535 + 255*j */
 #define ADLER_FB(j) (65535ULL + ((((j) << 9) - (j)) << 27))   /* 65535 + j*(2^36 - 2^27) */
 #define ADLER_PTR_REFRESH(p, e)                                                                    \
-        __CPROVER_assert((p) == (e), "pointer refresh is the identity");                           \
+        __CPROVER_assert((p) == (e), "ghost refresh is the identity");                           \
         (p) = (e);
 
-#ifndef ADLER_FUNC
+#if defined(ADLER_BAM1)
+/* only the isal_adler32_bam1 contract (end of file) */
+#elif !defined(ADLER_FUNC) && !defined(ADLER_CONG)
 /* ------------------------------------------------------------------ safety / schedule / overflow */
 #define C_adler32_base                                                                             \
         __CPROVER_requires(length <= ADLER_MAXLEN && g_len == length)                              \
@@ -80,6 +82,101 @@ extern uint8_t w_byte;
                 uint64_t i__ = ADLER_IDX(next);                                                    \
                 ADLER_PTR_REFRESH(next, start + i__)                                               \
                 __CPROVER_assert(i__ == w_idx, "bytes are consumed in order, each exactly once");  \
+                w_byte = start[i__];                                                               \
+                w_idx = i__ + 1;                                                                   \
+                VCANARY();                                                                         \
+        }
+#define H_adler32_base_2 ADLER_HOOK
+#define H_adler32_base_3 ADLER_HOOK
+
+#elif defined(ADLER_CONG)
+/* ------------------------------------------------------------------ congruence, every length <= 2^47
+ * (harness adler32_base_congruence).  Same ghost fold (SA,SB) as ADLER_FUNC below, for every length and
+ * through the 2^28 chunk loop.  Ghost state: qA (quotient of A), mA, mB (multiples of 65521), updated in the
+ * hook by  cA = [SA[i]+byte >= 65521], cB = [SB[i]+SA[i+1] >= 65521],
+ *          mB += mA + (cA+cB)*65521,  qA += cA,  mA += cA*65521.
+ * Inside a chunk, after j >= 1 bytes:  A == SA[i] + mA,  mA == 65521*qA (written (q<<16)-(q<<4)+q),
+ * qA <= 2 + j/256 (no wrap),  B == SB[i] + mB;  at a chunk start A - SA[i] and B - SB[i] are 0 or 65521.
+ * Every step of both byte loops is proved for all states: each byte updates the accumulators exactly as
+ * the per-byte definition does, up to the tracked multiples of 65521.  Limits, stated plainly:
+ *  - that mB is a multiple of 65521 holds by construction of the ghost update (sum of mA's and 65521's);
+ *    the formula mB == 65521*qB is NOT carried as an invariant (its step is a 4-operand linearity fact
+ *    on which every SAT back end tried timed out; the 2-operand fact for mA closes);
+ *  - that the reductions `X = X % 65521` map SA[i] + 65521*q to SA[i] (uniqueness of Euclidean division,
+ *    q up to 2^47) is NOT proved here: these are the step obligations of the two "chunk start" clauses
+ *    of loop 1 and the value postcondition; the registry entry excludes exactly those by name
+ *    (kind='bounded' so that it is never counted as a proof); adler32_base_func(_1k) prove them for
+ *    short inputs. */
+#define ADLER_M 65521ULL
+#define ADLER_MULM(q) ((((uint64_t) (q)) << 16) - (((uint64_t) (q)) << 4) + ((uint64_t) (q))) /* 65521*q */
+#define C_adler32_base                                                                             \
+        __CPROVER_requires(length <= ADLER_MAXLEN && g_len == length)                              \
+        __CPROVER_requires(__CPROVER_is_fresh(start, length))                                      \
+        __CPROVER_requires(__CPROVER_is_fresh(SA, (length + 1) * sizeof(uint32_t)) &&              \
+                           SA[0] == (adler32 & 0xffff) % SPEC_ADLER_MOD)                           \
+        __CPROVER_requires(__CPROVER_is_fresh(SB, (length + 1) * sizeof(uint32_t)) &&              \
+                           SB[0] == (adler32 >> 16) % SPEC_ADLER_MOD)                              \
+        __CPROVER_ensures(w_idx == g_len)                                                          \
+        __CPROVER_ensures(__CPROVER_return_value == (SB[g_len] << 16 | SA[g_len]))                 \
+        __CPROVER_assigns(w_a, w_b, w_idx, w_byte)
+#define E_adler32_base                                                                             \
+        uint64_t len0__ = length;                                                                  \
+        uint64_t qA__ = 0, mA__ = 0, mB__ = 0; /* ghost quotient of A, ghost multiples of 65521 */  \
+        w_idx = 0;
+#define ADLER_BASE_IDX (len0__ - length)
+#define L_adler32_base_1                                                                           \
+        __CPROVER_assigns(length, next, end, A, B, qA__, mA__, mB__, w_a, w_b, w_idx, w_byte)            \
+        __CPROVER_loop_invariant(length <= len0__ && next == start + ADLER_BASE_IDX &&             \
+                                 w_idx == ADLER_BASE_IDX && A <= 65535 && B <= 65535 &&            \
+                                 SA[ADLER_BASE_IDX] < ADLER_M && SB[ADLER_BASE_IDX] < ADLER_M)     \
+        __CPROVER_loop_invariant(A == SA[ADLER_BASE_IDX] || A == SA[ADLER_BASE_IDX] + ADLER_M)     \
+        __CPROVER_loop_invariant(B == SB[ADLER_BASE_IDX] || B == SB[ADLER_BASE_IDX] + ADLER_M)     \
+        __CPROVER_decreases(length)
+#define H_adler32_base_1 VCANARY();
+#define ADLER_J (ADLER_IDX(next) - ADLER_BASE_IDX)
+#define ADLER_INNER(limit)                                                                         \
+        __CPROVER_assigns(next, A, B, qA__, mA__, mB__, w_a, w_b, w_idx, w_byte)                         \
+        __CPROVER_loop_invariant(__CPROVER_same_object(next, start) &&                             \
+                                 __CPROVER_POINTER_OFFSET(next) >= __CPROVER_POINTER_OFFSET(start) && \
+                                 ADLER_IDX(next) >= ADLER_BASE_IDX &&                              \
+                                 ADLER_IDX(next) <= ADLER_BASE_IDX + (limit) && w_idx == ADLER_IDX(next)) \
+        __CPROVER_loop_invariant(SA[ADLER_IDX(next)] < ADLER_M && SB[ADLER_IDX(next)] < ADLER_M)   \
+        __CPROVER_loop_invariant(A <= ADLER_FA(ADLER_J) && B <= ADLER_FB(ADLER_J))                 \
+        __CPROVER_loop_invariant(ADLER_J == 0 ? (A == SA[ADLER_IDX(next)] || A == SA[ADLER_IDX(next)] + ADLER_M) \
+                                              : (A == SA[ADLER_IDX(next)] + mA__))                 \
+        __CPROVER_loop_invariant(ADLER_J == 0 ? (B == SB[ADLER_IDX(next)] || B == SB[ADLER_IDX(next)] + ADLER_M) \
+                                              : (B == SB[ADLER_IDX(next)] + mB__))                 \
+        /* mA is 65521 * (ghost quotient qA), without wrap-around */                                \
+        __CPROVER_loop_invariant(ADLER_J == 0 || mA__ == ADLER_MULM(qA__))                         \
+        __CPROVER_loop_invariant(ADLER_J == 0 || qA__ <= 2 + (ADLER_J >> 8))                       \
+        __CPROVER_decreases(ADLER_BASE_IDX + (limit) - ADLER_IDX(next))
+#define L_adler32_base_2 ADLER_INNER(ADLER_CHUNK)
+#define L_adler32_base_3 ADLER_INNER(length)
+#define ADLER_HOOK                                                                                 \
+        {                                                                                          \
+                uint64_t i__ = ADLER_IDX(next);                                                    \
+                ADLER_PTR_REFRESH(next, start + i__)                                               \
+                if (i__ == ADLER_BASE_IDX) { /* chunk start: quotients are 0 or 1 */               \
+                        qA__ = (A == SA[i__]) ? 0 : 1;                                             \
+                        mA__ = qA__ ? ADLER_M : 0;                                                 \
+                        mB__ = (B == SB[i__]) ? 0 : ADLER_M;                                       \
+                } else { /* identity re-assignments (asserted): turn the assumed equalities of the \
+                            invariant into definitions, which the SAT solver handles far better */ \
+                        ADLER_PTR_REFRESH(mA__, ADLER_MULM(qA__))                                  \
+                }                                                                                  \
+                uint32_t a__ = spec_adler_a(SA[i__], start[i__]);                                  \
+                uint32_t b__ = spec_adler_b(SB[i__], a__);                                         \
+                GHOST_AXIOM(SA[i__ + 1] == a__ && SB[i__ + 1] == b__);                             \
+                {                                                                                  \
+                        uint64_t cA__ = ((uint64_t) SA[i__] + start[i__] >= ADLER_M) ? 1 : 0;      \
+                        uint64_t cB__ = ((uint64_t) SB[i__] + a__ >= ADLER_M) ? 1 : 0;             \
+                        uint64_t c__ = cA__ + cB__; /* B' = B + A + byte: qB' = qB + qA + cA + cB */ \
+                        mB__ = mB__ + mA__ + (c__ == 0 ? 0 : c__ == 1 ? ADLER_M : 2 * ADLER_M);    \
+                        qA__ += cA__;                                                              \
+                        mA__ += cA__ ? ADLER_M : 0;                                                \
+                }                                                                                  \
+                w_a = SA[i__];                                                                     \
+                w_b = SB[i__];                                                                     \
                 w_byte = start[i__];                                                               \
                 w_idx = i__ + 1;                                                                   \
                 VCANARY();                                                                         \
@@ -151,6 +248,37 @@ extern uint8_t w_byte;
                 w_byte = start[i__];                                                               \
                 VCANARY();                                                                         \
         }
+#endif
+
+#ifdef ADLER_BAM1
+/* ------------------------------------------------------------------ isal_adler32_bam1 (igzip/igzip.c)
+ * Stored form is B<<16 | (A-1 mod 65521), so that the initial Adler value (A=1,B=0) is stored as 0 like a
+ * CRC.  Loop-free relation to isal_adler32 (multibinary dispatch: ASSUMED contract below, which only
+ * records the arguments and the result in ghost variables and states that both halves of the result are
+ * reduced -- the fact proved for adler32_base).  Domain: stored low half < 65521. */
+extern uint32_t w_ad_init, w_ad_ret;
+extern uint64_t w_ad_len;
+extern const unsigned char *w_ad_buf;
+uint32_t
+isal_adler32(uint32_t init, const unsigned char *buf, uint64_t len)
+        /* ASSUMED (dispatched to adler32_base / adler32_sse / adler32_avx2_4) */
+        __CPROVER_ensures(w_ad_init == init && w_ad_len == len && w_ad_buf == buf &&
+                          w_ad_ret == __CPROVER_return_value)
+        __CPROVER_ensures((__CPROVER_return_value & 0xffff) < SPEC_ADLER_MOD &&
+                          (__CPROVER_return_value >> 16) < SPEC_ADLER_MOD)
+        __CPROVER_assigns(w_ad_init, w_ad_ret, w_ad_len, w_ad_buf);
+#define BAM1_LO(v) ((uint32_t) (v) & 0xffffu)
+#define BAM1_HI(v) ((uint32_t) (v) & 0xffff0000u)
+#define C_isal_adler32_bam1                                                                        \
+        __CPROVER_requires(BAM1_LO(adler32) < SPEC_ADLER_MOD)                                      \
+        /* the callee is started from the true Adler value: A = stored + 1 (mod 65521), same B */  \
+        __CPROVER_ensures(w_ad_init == (BAM1_HI(adler32) | (BAM1_LO(adler32) + 1) % SPEC_ADLER_MOD)) \
+        __CPROVER_ensures(w_ad_len == length && w_ad_buf == start)                                 \
+        /* and its result is stored back as A - 1 (mod 65521), same B */                           \
+        __CPROVER_ensures(__CPROVER_return_value ==                                                \
+                          (BAM1_HI(w_ad_ret) | (BAM1_LO(w_ad_ret) + SPEC_ADLER_MOD - 1) % SPEC_ADLER_MOD)) \
+        __CPROVER_ensures(BAM1_LO(__CPROVER_return_value) < SPEC_ADLER_MOD)                        \
+        __CPROVER_assigns(w_ad_init, w_ad_ret, w_ad_len, w_ad_buf)
 #endif
 
 #endif
